@@ -66,6 +66,30 @@ def run(rep, tier, seed, b):
         if 'ok' in im and im['ok'] != ns['ok']:
             rep.oracle_failures.append({'clause': 'strict and non-strict encoding return the same string when both succeed', 'input': inp, 'impl': [im, ns]})
         rep.nontriv(it[1] + str(sorted(it[0].items())))
+    # tables that change between calls, incl. the caller editing the dict it passed: the verdict follows get_semantic_constraints()
+    import hist_common as H
+    probes = ['CN(C)(C)(C)C', 'CN(C)(C)C', 'CS(=O)(=O)C', 'CS(=O)C', 'C[Si](C)(C)C', 'COC', 'CC(C)(C)C', 'CF', 'FCF', 'C=O', 'C#N', 'CP(C)(C)(C)C', 'C[O+](C)C', 'OCl(=O)=O']
+    for _ in range(60 if tier == 'quick' else 800):
+        d0 = H.random_dict(rng, valid=True)
+        for kv in d0:
+            if kv[0] in ('N', 'S', 'O', 'C', 'Si', '?', 'P', 'F', 'Cl') and isinstance(kv[1], bool):
+                kv[1] = int(kv[1])
+        ops = [['new', d0], ['set', ['held', 0]]] + [['enc', p_, True, False] for p_ in rng.sample(probes, 4)]
+        ops += [['mut', 0, ['setitem', rng.choice(['N', 'S', 'O', 'C', 'Si', '?', 'P']), rng.choice([0, 1, 2, 5, 7])]] for _ in range(2)]
+        tail = [['enc', p_, True, False] for p_ in probes]
+        im = H.impl_run(ops + [['get']] + tail)
+        rep.evaluations += 1
+        rep.impl_traces += 1
+        if not isinstance(im, list) or not im[len(ops)] or 'dict' not in im[len(ops)]:
+            continue
+        reported = {k: v for k, v in im[len(ops)]['dict']}
+        # reference: a fresh interpreter set to the REPORTED table
+        ref = H.impl_run([['new', [[k, v] for k, v in reported.items()]], ['set', ['held', 0]]] + tail)
+        if isinstance(ref, list) and im[len(ops) + 1:] != ref[2:]:
+            j = next(i for i, (a, c) in enumerate(zip(im[len(ops) + 1:], ref[2:])) if a != c)
+            rep.oracle_failures.append({'clause': 'strict encoding follows the constraints in force (as reported by get_semantic_constraints), also when tables change between calls '
+                                                  'and when the caller later edits the dict it passed',
+                                        'input': {'ops': ops + [['get'], tail[j]]}, 'impl': im[len(ops) + 1 + j], 'expected': ref[2 + j]})
     for it, r in list(zip(items, res))[:4]:
         rep.sample({'smiles': it[1], 'strict': r['impl'], 'independent_count_says_violation': (r.get('c06') or {}).get('violates')})
     rep.rule = ('dataset molecules re-spelt and mutated (charges, explicit H, elements covered only by "?") x %d tables (presets and presets with capacities moved by 1-2, extra charged keys), '
@@ -75,6 +99,11 @@ def run(rep, tier, seed, b):
 
 def replay(data):
     i = data['failure']['input']
+    if 'ops' in i:
+        import hist_common as H
+        im = H.impl_run(i['ops'])
+        return {'ops': i['ops'], 'impl': im, 'expected_last': data['failure'].get('expected'),
+                'fails': isinstance(im, list) and im[-1] != data['failure'].get('expected')}
     r = work2([(i['table'], i['smiles'], True, False)], None)[0]
     c = r.get('c06') or {}
     bad = ('ok' in r['impl']) == bool(c.get('violates')) if c.get('same_molecule') else False
